@@ -7,14 +7,19 @@ PROPERTY = 'C17'
 FUNCTIONS_ENCODED = ['pgradd.RDkitWrapper.GenRxnNet:GenerateRxnNet']
 BOUNDS = {
     'quick': 'n = 3 abstract species, 1 unimolecular rule with <= 2 products per species (targets symbolic), symbolic '
-             'over-valence flag per species, 1 seed; n = 2 with 2 rules (1 product each) and 2 seeds; n = 3 with 2 rules (1 product each) and 1 seed',
+             'over-valence flag per species, 1 seed; n = 2 with 2 rules (1 product each) and 2 seeds; n = 3 with 2 rules (1 product each) and 1 seed; '
+             'species sizes in {1,2} (all 3 + 7 non-uniform size vectors) with symbolic containment for n = 2 (2 rules, 2 seeds) and n = 3 (1 rule, 2 seeds)',
     'thorough': 'additionally n = 2 species, 2 rules, 2 seeds, 2 products each; n = 4 species, 1 rule, 1 product; n = 3 species, '
-                '2 rules, 2 seeds, 1 product',
+                '2 rules, 2 seeds, 1 product; sizes in {1,2,3} (the 18 non-uniform vectors containing a 3) with symbolic containment for '
+                'n = 3, 2 rules, 2 seeds',
 }
-STUBS = ['fake Chem/PeriodicTable in GenRxnNet: species are abstract ids; identity = mutual substructure test on ids; '
+STUBS = ['fake Chem/PeriodicTable in GenRxnNet: species are abstract ids with an atom count (1..3, concrete per obligation) and a '
+         'symbolic proper-substructure relation between species of different size; GetSubstructMatch(q) returns one atom per '
+         'query atom when q is the species itself or contained in it; '
          'a rule is a symbolic successor relation; valence filter = symbolic flag per species',
          'Fuel: more than (n+2)*rules*4 rule applications = candidate non-termination']
 ASSUMPTIONS = ["RDKit's duplicate test (equal atom count and full substructure match) is species identity",
+               'distinct abstract species are pairwise non-isomorphic; a species can only be contained in a strictly larger one',
                'unimolecular rules only']
 OUTSIDE = ['bimolecular rules', 'RDKit sanitisation / hydrogen handling / SMARTS semantics']
 REALISED = ['successor targets and seed ids (solver-enumerated choices)']
@@ -46,13 +51,17 @@ class _Sp(object):
         self.w, self.i = world, i
 
     def GetAtoms(self):
-        return [_Atom(self.w.over(self.i))]
+        return [_Atom(self.w.over(self.i))] + [_Atom(False) for _ in range(self.w.size(self.i) - 1)]
 
     def GetNumAtoms(self):
-        return 1
+        return self.w.size(self.i)
 
     def GetSubstructMatch(self, other):
-        return (0,) if self.i == other.i else ()
+        # a match lists one atom of self per atom of the query: the species itself, or a strictly smaller species that
+        # the (symbolic) containment relation places inside this one
+        if self.i == other.i or self.w.contains(self.i, other.i):
+            return tuple(range(self.w.size(other.i)))
+        return ()
 
 
 class _PT(object):
@@ -90,8 +99,21 @@ class _World(object):
 
     def __init__(self, n, nrules, width):
         self.n, self.nrules, self.width = n, nrules, width
-        self._succ, self._over = {}, {}
+        self._succ, self._over, self._sub = {}, {}, {}
+        self.sizes = list(PARAM.get('sizes') or [1] * n)    # atoms per species (concrete per obligation)
         self.applications = 0
+
+    def size(self, i):
+        return self.sizes[i]
+
+    def contains(self, i, j):
+        """species j is a proper substructure of species i: possible only when j is strictly smaller (distinct abstract
+        species are pairwise non-isomorphic); otherwise a lazily created symbolic flag"""
+        if self.sizes[j] >= self.sizes[i]:
+            return False
+        if (i, j) not in self._sub:
+            self._sub[(i, j)] = bool(B('sub_%d_%d' % (i, j)))
+        return self._sub[(i, j)]
 
     def over(self, i):
         if i not in self._over:
@@ -208,7 +230,22 @@ def obligations(tier, seed):
     obs.append(dict(name='closure_n2_r2_s2_w1', func='h_closure', param=dict(n=2, rules=2, seeds=2, width=1), timeout=to))
     # two rules, one seed: the same new species can be produced by both rules from one reactant
     obs += _split1('closure_n3_r2_s1_w1', dict(n=3, rules=2, seeds=1, width=1), 3, to)
+    # species of different sizes with a symbolic containment relation (one species a substructure of another): the
+    # duplicate test must still be identity, for seeds as well as for products
+    import itertools
+    for sz in itertools.product((1, 2), repeat=2):
+        if sz != (1, 1):
+            obs.append(dict(name='closure_sub_n2_r2_s2_w1_z%d%d' % sz, func='h_closure',
+                            param=dict(n=2, rules=2, seeds=2, width=1, sizes=list(sz)), timeout=to))
+    for sz in itertools.product((1, 2), repeat=3):
+        if sz != (1, 1, 1):
+            obs.append(dict(name='closure_sub_n3_r1_s2_w1_z%d%d%d' % sz, func='h_closure',
+                            param=dict(n=3, rules=1, seeds=2, width=1, sizes=list(sz)), timeout=to))
     if not q:
+        for sz in itertools.product((1, 2, 3), repeat=3):
+            if len(set(sz)) > 1 and 3 in sz:
+                obs.append(dict(name='closure_sub_n3_r2_s2_w1_z%d%d%d' % sz, func='h_closure',
+                                param=dict(n=3, rules=2, seeds=2, width=1, sizes=list(sz)), timeout=to))
         obs += _split('closure_n2_r2_s2', dict(n=2, rules=2, seeds=2, width=2), 2, to)
         obs += _split1('closure_n4_r1_w1', dict(n=4, rules=1, seeds=1, width=1), 4, to)
         obs += _split2('closure_n3_r2_s2_w1', dict(n=3, rules=2, seeds=2, width=1), 3, to)
